@@ -35,6 +35,10 @@ def main():
         checks = sys.argv[sys.argv.index("--checks") + 1].split(",")
     wt = f"/tmp/wt_{prop}"
     out = f"/tmp/out_{prop}/{mn}"
+    stored = "--stored" in sys.argv      # re-run the checks against a change already kept under /verif/seeded
+    if stored:
+        out = os.path.join(VERIF, "seeded", f"{prop}_{mn}")
+        wt = "/nonexistent"
     patch = os.path.join(out, "patch.diff")
     meta = {"property": prop, "id": f"{prop}_{mn}", "ran": []}
     notes = open(os.path.join(out, "notes.md")).read() if os.path.exists(os.path.join(out, "notes.md")) else ""
@@ -99,7 +103,14 @@ def main():
     meta["detected_by"] = detected
     shutil.rmtree(copy, ignore_errors=True)
     dst = os.path.join(VERIF, "seeded", f"{prop}_{mn}")
-    if confirmed:
+    if stored:
+        mp = os.path.join(dst, "meta.json")
+        old = json.load(open(mp))
+        old.setdefault("detected_by", {}).update(detected)
+        old["ran"] = old.get("ran", []) + meta["ran"]
+        json.dump(old, open(mp, "w"), indent=1)
+        print("updated", mp)
+    elif confirmed:
         shutil.rmtree(dst, ignore_errors=True)
         os.makedirs(dst)
         for f in os.listdir(out):
